@@ -798,9 +798,48 @@ impl Part for E2a {
 // E2b: unmerged history trees on live contexts
 // ------------------------------------------------------------------------------------------------
 
-/// 12-letter alphabet of the history tree
-pub const LETTERS: [&str; 12] = [
-    "SealA", "SealI", "NextA", "NextI", "ReplayA", "FutureI", "TamperA", "ShortA", "WrongAadI", "GarbageI", "ExportS", "ExportR",
+/// A read-only slice of `len` zero bytes backed by an untouched anonymous mapping: no memory is committed, so
+/// inputs beyond the AEAD's own length limits (AES-GCM: aad > 2^36 bytes) can be handed to the library. The
+/// mapping is PROT_READ: code that tried to write there would fault (and be reported as a crash), and the
+/// AEAD implementations reject on the length alone without reading.
+pub struct Huge {
+    ptr: *mut u8,
+    len: usize,
+}
+extern "C" {
+    fn mmap(addr: *mut core::ffi::c_void, len: usize, prot: i32, flags: i32, fd: i32, off: i64) -> *mut core::ffi::c_void;
+    fn munmap(addr: *mut core::ffi::c_void, len: usize) -> i32;
+}
+impl Huge {
+    pub fn new(len: usize) -> Option<Huge> {
+        if !cfg!(all(target_os = "linux", target_pointer_width = "64")) {
+            return None;
+        }
+        // PROT_READ = 1; MAP_PRIVATE | MAP_ANONYMOUS | MAP_NORESERVE = 0x2 | 0x20 | 0x4000
+        let p = unsafe { mmap(core::ptr::null_mut(), len, 1, 0x4022, -1, 0) };
+        if p as isize == -1 || p.is_null() {
+            None
+        } else {
+            Some(Huge { ptr: p as *mut u8, len })
+        }
+    }
+    pub fn as_slice(&self) -> &[u8] {
+        unsafe { core::slice::from_raw_parts(self.ptr, self.len) }
+    }
+}
+impl Drop for Huge {
+    fn drop(&mut self) {
+        unsafe {
+            munmap(self.ptr as *mut core::ffi::c_void, self.len);
+        }
+    }
+}
+/// one byte more than AES-GCM's limit on the associated data (2^36 bytes)
+pub const AAD_OVER_GCM_LIMIT: usize = (1usize << 36) + 1;
+
+/// 14-letter alphabet of the history tree
+pub const LETTERS: [&str; 14] = [
+    "SealA", "SealI", "NextA", "NextI", "ReplayA", "FutureI", "TamperA", "ShortA", "WrongAadI", "GarbageI", "ExportS", "ExportR", "SealOverLimit", "OpenOverLimit",
 ];
 
 #[derive(Clone, Debug, Serialize, Deserialize)]
@@ -870,7 +909,40 @@ impl E2b {
                     }
                 }
                 10 => run_export(out, fx, s.export(b"tree", 33), b"tree", 33, &what),
-                _ => run_export(out, fx, r.export(b"tree", 33), b"tree", 33, &what),
+                11 => run_export(out, fx, r.export(b"tree", 33), b"tree", 33, &what),
+                _ => {
+                    // an input the AEAD itself refuses (AES-GCM: more than 2^36 bytes of aad): the seal fails with
+                    // SealError / the open with OpenError, and NOTHING else changes - the next successful seal is
+                    // still the i-th one. Only AES-GCM has a limit that can be reached without committing memory.
+                    if !matches!(fx.suite.aead, crate::refmodel::Aead::Aes128Gcm | crate::refmodel::Aead::Aes256Gcm) {
+                        continue;
+                    }
+                    let Some(h) = Huge::new(AAD_OVER_GCM_LIMIT) else {
+                        out.notes.push("over-limit mapping unavailable: letter skipped".into());
+                        continue;
+                    };
+                    out.transitions += 1;
+                    if l == 12 {
+                        let mut buf = b"over the limit".to_vec();
+                        let got = if i % 2 == 0 { s.seal_ip(&mut buf, h.as_slice()).map(|_| ()) } else { s.seal(b"over the limit", h.as_slice()).map(|_| ()) };
+                        let want = if pos.s.is_some() { HpkeError::SealError } else { HpkeError::MessageLimitReached };
+                        if got != Obs::Err(want) {
+                            out.fail(format!("{}: seal with {} bytes of aad (over the AEAD's limit): got {} want Err({:?})", what, AAD_OVER_GCM_LIMIT, got.class(), want));
+                        }
+                        if pos.s.is_none() && buf != b"over the limit" {
+                            out.fail(format!("{}: buffer modified although MessageLimitReached was returned", what));
+                        }
+                    } else {
+                        let (_, _, ct) = fx.msg(cur_r);
+                        let nt = fx.nt();
+                        let mut buf = ct[..ct.len() - nt].to_vec();
+                        let got = if i % 2 == 0 { r.open_ip(&mut buf, h.as_slice(), &ct[ct.len() - nt..]) } else { r.open(&ct, h.as_slice()).map(|_| ()) };
+                        let want = if pos.r.is_some() { HpkeError::OpenError } else { HpkeError::MessageLimitReached };
+                        if got != Obs::Err(want) {
+                            out.fail(format!("{}: open with {} bytes of aad (over the AEAD's limit): got {} want Err({:?})", what, AAD_OVER_GCM_LIMIT, got.class(), want));
+                        }
+                    }
+                }
             }
             // the concrete counters follow the model after every step
             let want_s = match pos.s { Some(p) => (p, false), None => (u64::MAX, true) };
@@ -889,7 +961,7 @@ impl Part for E2b {
         format!("E2b-history-tree-{}", self.label)
     }
     fn rule(&self) -> String {
-        "unmerged tree of ALL action sequences up to the depth bound over the letter alphabet {seal (2 APIs), deliver next (2 APIs), replay, future, tampered, short, wrong-aad, garbage, export S, export R}, run on live sender+receiver contexts from each start position (the hook only sets the start); the abstract model runs in lock-step: every result, every output byte and the concrete (seq, overflowed) pair after every step are compared; a case = one prefix with all its continuations".into()
+        "unmerged tree of ALL action sequences up to the depth bound over the letter alphabet {seal (2 APIs), deliver next (2 APIs), replay, future, tampered, short, wrong-aad, garbage, export S, export R, seal / open with more associated data than the AEAD accepts (2^36+1 bytes from an uncommitted read-only mapping, AES-GCM suites; must fail with SealError / OpenError and change nothing)}, run on live sender+receiver contexts from each start position (the hook only sets the start); the abstract model runs in lock-step: every result, every output byte and the concrete (seq, overflowed) pair after every step are compared; a case = one prefix with all its continuations".into()
     }
     fn bound(&self, _cfg: &Cfg) -> String {
         format!("depth {} over {} letters from {} start positions x {} suites", self.depth, self.letters.len(), self.starts.len(), self.suites.len())
